@@ -55,6 +55,10 @@ def attack_streams(quick):
         return bytes(protocol.SendingMessage(protocol.MSG_INVOKE, flags, 3, ser.serializer_id, ser.dumpsCall(obj, meth, args, kw or {})).data)
     sem = [("I.unknown-object", inv("nope", "token", ("x",))), ("I.unknown-member", inv("obj", "nope")), ("I.private-member", inv("obj", "_secret")),
            ("I.dunder-member", inv("obj", "__class__")), ("I.raises-unserialisable", inv("obj", "boom", ("unserialisable",))), ("I.raises-custom", inv("obj", "boom", ("custom",))),
+           ("I.raises-nasty", inv("obj", "boom", ("nasty",))), ("I.raises-nasty-plain", inv("obj", "boom", ("nasty-plain",))), ("I.raises-str-nonstring", inv("obj", "boom", ("str-nonstring",))),
+           ("I.raises-repr-raises", inv("obj", "boom", ("repr-raises",))), ("I.callback-raises-nasty", inv("obj", "boom_callback", ("nasty",))), ("I.callback-raises-plain", inv("obj", "boom_callback", ("plain",))),
+           ("I.callback-raises-str-nonstring", inv("obj", "boom_callback", ("str-nonstring",))), ("I.oneway-raises-nasty", inv("obj", "boom", ("nasty",), flags=protocol.FLAGS_ONEWAY)),
+           ("I.batch-raises-nasty", inv("obj", "<batch>", [("boom", ("nasty",), {})], flags=protocol.FLAGS_BATCH)),
            ("I.raises-plain", inv("obj", "boom", ("plain",))), ("I.wrong-args", inv("obj", "token", (1, 2, 3))), ("I.oneway-raises", inv("obj", "boom", ("unserialisable",), flags=protocol.FLAGS_ONEWAY)),
            ("I.batch-garbage", inv("obj", "<batch>", ("not-a-list-of-calls",), flags=protocol.FLAGS_BATCH)), ("I.getattr-unknown", inv("obj", "__getattr__", ("nope",))),
            ("I.setattr-unknown", inv("obj", "__setattr__", ("nope", 1))), ("I.keepserialized-without-blob", inv("obj", "token", ("x",), flags=protocol.FLAGS_KEEPSERIALIZED)),
